@@ -243,3 +243,101 @@ Proof.
     symmetry. apply next_spec_Some. rewrite Hst. apply nth_error_app_Some.
     replace (S f) with (S f + 0)%nat by lia. rewrite <- nth_error_skipn_add, <- E. reflexivity.
 Qed.
+
+(** * the checkpoint *)
+Lemma zlen_all_ones ws : zlen (all_ones ws) = count_true (flat ws).
+Proof. unfold zlen, all_ones. apply ones_length. Qed.
+
+Lemma spec_IndexSelect32_nth ws (c : nat) : (32 * c < length (all_ones ws))%nat ->
+  nth_error (spec_IndexSelect32 ws) c = Some (nth (32 * c) (all_ones ws) 0).
+Proof.
+  intros Hc. unfold spec_IndexSelect32. cbv zeta.
+  rewrite nth_error_map, seq_nth_error by lia. reflexivity.
+Qed.
+
+Lemma spec_IndexSelect32_length ws :
+  length (spec_IndexSelect32 ws) = ((length (all_ones ws) + 31) / 32)%nat.
+Proof. unfold spec_IndexSelect32. cbv zeta. now rewrite map_length, seq_length. Qed.
+
+(** facts about the [c]-th 1 at position [p] *)
+Lemma all_ones_nth ws c p : nth_error (all_ones ws) c = Some p ->
+  0 <= p /\ (Z.to_nat p < 64 * length ws)%nat /\
+  rank1 (flat ws) (Z.to_nat p) = Z.of_nat c /\
+  nth_error (flat ws) (Z.to_nat p) = Some true /\
+  skipn c (all_ones ws) = ones_from p (skipn (Z.to_nat p) (flat ws)).
+Proof.
+  intros H. unfold all_ones, ones in *.
+  destruct (ones_from_nth_rank _ _ _ _ H) as (H0 & Hc & Hb). rewrite Z.sub_0_r in Hc, Hb.
+  assert (Hlt : (Z.to_nat p < length (flat ws))%nat) by (apply nth_error_Some; congruence).
+  repeat split; try assumption.
+  - now rewrite flat_length in Hlt.
+  - unfold rank1. rewrite <- (ones_from_length 0). now rewrite Hc.
+  - rewrite <- Hc. rewrite ones_from_skipn by lia. f_equal. lia.
+Qed.
+
+(** the state at the checkpoint [p] (the [c]-th 1), looking for the [c+f]-th 1 *)
+Lemma checkpoint_state ws (c f : nat) p w :
+  words_ok ws -> nth_error (all_ones ws) c = Some p ->
+  nth_error ws (Z.to_nat (p / 64)) = Some w ->
+  sel_state ws (c + f) (Z.to_nat (p / 64)) (clear_below (p mod 64) w) f.
+Proof.
+  intros Hok Hp Hw. destruct (all_ones_nth ws c p Hp) as (H0 & Hlt & _ & _ & Hskip).
+  pose proof (words_ok_nth _ _ _ Hok Hw) as Hwr.
+  repeat split.
+  - apply nth_error_Some. congruence.
+  - apply clear_below_word; exact Hwr.
+  - apply clear_below_word; exact Hwr.
+  - intros j.
+    replace (p mod 64) with (Z.of_nat (Z.to_nat (p mod 64))) by lia.
+    rewrite <- (rest_ones_at ws (Z.to_nat p) _ _ w Hw) by lia.
+    rewrite Z2Nat.id by lia. rewrite <- Hskip. rewrite nth_error_skipn_add. f_equal. lia.
+Qed.
+
+(** * Select32 *)
+Theorem Select32_exact ws i : words_ok ws -> 0 <= i < zlen (all_ones ws) ->
+  Select32 ws (spec_IndexSelect32 ws) i = Some (spec_Select ws i).
+Proof.
+  intros Hok Hi. unfold zlen in Hi.
+  set (n := length (all_ones ws)) in *.
+  unfold Select32.
+  destruct (Z.ltb_spec i 0) as [|_]; [lia|]. cbn [orb].
+  rewrite Z.shiftr_div_pow2 by lia. change (2 ^ 5) with 32.
+  change 31 with (Z.ones 5). rewrite Z.land_ones by lia. change (2 ^ 5) with 32.
+  unfold zlen at 1. rewrite spec_IndexSelect32_length. fold n.
+  destruct (Z.leb_spec (Z.of_nat ((n + 31) / 32)) (i / 32)) as [|_]; [lia|].
+  set (c := Z.to_nat (i / 32)). set (f := Z.to_nat (i mod 32)).
+  replace (i / 32) with (Z.of_nat c) by (subst c; lia).
+  rewrite nthZ_of_nat, spec_IndexSelect32_nth by (fold n; subst c; lia).
+  set (p := nth (32 * c) (all_ones ws) 0).
+  assert (Hp : nth_error (all_ones ws) (32 * c) = Some p)
+    by (apply nth_error_nth_Some; fold n; subst c; lia).
+  destruct (all_ones_nth ws _ p Hp) as (Hp0 & Hplt & _ & _ & _).
+  destruct (pos_split p Hp0) as (E1 & E2 & _ & Hq & Hk0). rewrite E1, E2.
+  set (k := Z.to_nat (p / 64)).
+  destruct (nth_error_exists ws k ltac:(subst k; lia)) as [w Hw].
+  replace (p / 64) with (Z.of_nat k) by (subst k; lia). rewrite nthZ_of_nat, Hw.
+  fold (clear_below (p mod 64) w).
+  pose proof (checkpoint_state ws (32 * c) f p w Hok Hp Hw) as Hst. fold k in Hst.
+  assert (Ei : Z.to_nat i = (32 * c + f)%nat) by (subst c f; lia).
+  rewrite <- Ei in Hst.
+  replace (i mod 32) with (Z.of_nat f) by (subst f; lia).
+  destruct (Select32_skip_spec ws (Z.to_nat i) Hok ltac:(fold n; lia) (length ws) k _ f ltac:(lia) Hst)
+    as (k' & w' & f' & Hskip & Hst' & Hf').
+  rewrite Hskip.
+  destruct (sel_in_word ws _ k' w' f' Hst' Hf') as (off & Hsiw & Hoff & Hnth & Ha).
+  rewrite Hsiw. rewrite shiftl_6.
+  assert (Ea63 : Z.land (off + 64 * Z.of_nat k') 63 = off).
+  { change 63 with (Z.ones 6). rewrite Z.land_ones by lia. change (2 ^ 6) with 64. lia. }
+  assert (Ea6 : Z.shiftr (off + 64 * Z.of_nat k') 6 = Z.of_nat k').
+  { rewrite Z.shiftr_div_pow2 by lia. change (2 ^ 6) with 64. lia. }
+  rewrite Ea63, Ea6, not64_MaskUpto. fold (clear_below (off + 1) w').
+  pose proof (sel_next ws _ k' w' f' off Hok Hst' Hnth) as Hnext. cbv zeta in Hnext.
+  assert (Espec : spec_Select ws i = (64 * Z.of_nat k' + off, next_spec ws (Z.to_nat i))).
+  { unfold spec_Select, next_spec. cbv zeta. f_equal.
+    - now apply nth_error_nth.
+    - rewrite Z2Nat.id by lia. replace (Z.to_nat (i + 1)) with (S (Z.to_nat i)) by lia. reflexivity. }
+  rewrite Espec.
+  destruct (clear_below (off + 1) w' =? 0); cbn [negb].
+  - rewrite Hnext. do 2 f_equal. lia.
+  - do 2 f_equal; lia.
+Qed.
